@@ -38,7 +38,9 @@ EXPLANATION = (
     ' '
     'R-C02.12 normalize_initial() returns embed=True only under `callable(initial)` (the literal branch of the rebuild overwrites existing values).'
     ' '
-    'R-C02.13 normalize_value returns a bound parameter unchanged (bool -> backend literal excepted).')
+    'R-C02.13 normalize_value returns a bound parameter unchanged (bool -> backend literal excepted).'
+    ' '
+    'R-C02.14 RenameField.simulate removes the old field entry before adding the renamed one (old and new name may coincide).')
 NOT_DECIDED = (
     'Equality of row contents before/after for all rows and sequences; '
     'behaviour of renames at the SQL level.')
@@ -717,7 +719,38 @@ def r13_parameters_bound_unchanged(ctx):
     ctx.floor('returns of normalize_value', n, 2)
 
 
+def r14_rename_removes_before_it_adds(ctx):
+    """RenameField.simulate() replaces the field's entry in the model
+    signature.  Old and new name can be the same (a rename that only changes
+    the column, or a rename chain that the optimiser collapses to f -> f): the
+    old entry must be removed *before* the new one is added, otherwise the add
+    overwrites the entry and the remove deletes it - the field vanishes from
+    the signature and the next SQLite rebuild drops the column with its
+    data."""
+    ctx.rule('R-C02.14')
+    p = ctx.program
+    f = p.func('mutations.rename_field', 'RenameField.simulate')
+    g = ctx.cfg(f)
+    adds = [n for n in g.nodes if any(call_name(c) == 'add_field_sig'
+                                      for c in n.calls())]
+    rems = [n for n in g.nodes if any(call_name(c) == 'remove_field_sig'
+                                      for c in n.calls())]
+    ctx.floor('add/remove of the field entry in RenameField.simulate',
+              len(adds) + len(rems), 2)
+    if adds and rems and all(any(g.dominates(r, a) for r in rems)
+                             for a in adds):
+        ctx.ok(f, 'the old field entry is removed before the renamed one is '
+               'added', adds[0].ast)
+    else:
+        ctx.finding(f, adds[0].ast if adds else None, 'RenameField.simulate '
+                    'adds the renamed field entry before removing the old '
+                    'one: when both names are equal the remove deletes the '
+                    'entry that was just added and the field disappears from '
+                    'the signature', key='add-before-remove')
+
+
 def run(ctx):
+    r14_rename_removes_before_it_adds(ctx)
     r13_parameters_bound_unchanged(ctx)
     r12_embed_only_for_callables(ctx)
     r11_no_write_after_handover(ctx)
